@@ -18,4 +18,15 @@ CHECKS = {
    text='All value combinations of 1..4 operands are decided by z3 for the real bp4v_*/bp8v_* (terms over 8 lanes x planes) and the real mv_*/_mv_* (every feasible path of the numpy mask logic), '
         'against the documented algebra (modulo {X,-}), the Boolean restriction, De Morgan duality, exact mv-vs-bp agreement and delivery in a caller-supplied out array. Shapes/broadcast cases enumerated.',
    note='Trusted: vlib/specmv.py, z3, numpy object-array dispatch; np.empty shimmed to object arrays in symbolic runs, each path cross-checked on real uint8 arrays. Scalar (0-d) operands not covered.'),
+ 'C16': dict(engine='E1-lanes', category='model_checking', design_ref='DESIGN.md §5 C16',
+   technique='symbolic execution of the real c_prop(inject_cb) with a callback that writes fresh symbolic planes + SMT equivalence with the oracle of the cut circuit; concrete call-trace comparison',
+   text='For every line of every small-corpus circuit and every logic (2/4/8) the real c_prop runs symbolically with a callback overwriting that line with fresh variables; z3 decides that s[1] equals the '
+        'oracle of the circuit with that line cut, for all stimuli and all injected values; untouched callback = no callback. The data-independent call trace (one call per evaluated line, in op order, '
+        'Line identity, writable view of the fresh values) is compared on one concrete run per (circuit, logic).',
+   note='Trusted: ref2/specmv oracles, z3. Default options only (with strip_forks branch lines alias their stem). Ops writing the scratch slot (unconnected output) have no Line and are skipped.'),
+ 'C19': dict(engine='E1-lanes', category='model_checking', design_ref='DESIGN.md §5 C19',
+   technique='exhaustive pin-table comparison against an independent re-parse of the declarations + symbolic execution of every implementation circuit through the real LogicSim, z3 equality with data-sheet functions',
+   text='All ~1000 names of the five libraries: each name expands, pin indices/directions follow the declaration order and the implementation circuit (finite, exhaustive). Every distinct combinational '
+        'implementation in a claimed family is executed once symbolically and z3 proves each output pin equal to the data-sheet function for all input combinations.',
+   note='Trusted: the data-sheet table in checks/c19.py (family regex, vendor pin grouping), z3. Sequential, tristate, clock-gating, power-switch cells: pin tables only.'),
 }
